@@ -143,8 +143,52 @@ func constIntOf(v ssa.Value) (int64, bool) {
 // length of the shortest well-formed encoding; fixedLen >= 0 says every
 // well-formed encoding has exactly that length.
 func lengthPrechecks(p *Prog, r *Report, rule, name string, fn *ssa.Function, minLen, fixedLen int64) {
+	lengthPrechecksOn(p, r, rule, name, fn, minLen, fixedLen, nil, 0)
+}
+
+// lengthPrechecksOn: only != nil restricts the judgement to tests of that
+// parameter's length. Helpers of the module that receive one of fn's byte
+// parameters whole are judged the same way (their refusals are fn's).
+func lengthPrechecksOn(p *Prog, r *Report, rule, name string, fn *ssa.Function, minLen, fixedLen int64, only *ssa.Parameter, depth int) {
 	if fn == nil || fn.Blocks == nil {
 		return
+	}
+	if depth < 2 {
+		seen := map[*ssa.Function]bool{}
+		for _, b := range fn.Blocks {
+			for _, in := range b.Instrs {
+				c, ok := in.(*ssa.Call)
+				if !ok {
+					continue
+				}
+				g := c.Call.StaticCallee()
+				if g == nil || g.Pkg == nil || g.Blocks == nil || !strings.HasPrefix(g.Pkg.Pkg.Path(), modPath) || seen[g] || g == fn {
+					continue
+				}
+				for ai, a := range c.Call.Args {
+					for {
+						if cv, ok := a.(*ssa.Convert); ok {
+							a = cv.X
+							continue
+						}
+						if ct, ok := a.(*ssa.ChangeType); ok {
+							a = ct.X
+							continue
+						}
+						break
+					}
+					pa, ok := a.(*ssa.Parameter)
+					if !ok || pa.Parent() != fn || (only != nil && pa != only) || ai >= len(g.Params) {
+						continue
+					}
+					if !isByteSliceLike(pa.Type()) {
+						continue
+					}
+					seen[g] = true
+					lengthPrechecksOn(p, r, rule, name+" via "+shortName(g), g, minLen, fixedLen, g.Params[ai], depth+1)
+				}
+			}
+		}
 	}
 	ff := p.Facts(fn)
 	edgeOK := acceptingEdges(ff, fn)
@@ -176,9 +220,9 @@ func lengthPrechecks(p *Prog, r *Report, rule, name string, fn *ssa.Function, mi
 		op := bo.Op
 		var k int64
 		var okK bool
-		if _, isLen := lenOfParam(bo.X); isLen {
+		if lp, isLen := lenOfParam(bo.X); isLen && (only == nil || lp == only) {
 			k, okK = constIntOf(bo.Y)
-		} else if _, isLen := lenOfParam(bo.Y); isLen {
+		} else if lp, isLen := lenOfParam(bo.Y); isLen && (only == nil || lp == only) {
 			k, okK = constIntOf(bo.X)
 			// K op len  ==  len op' K
 			switch op {
